@@ -45,6 +45,8 @@ def layer_features(items, opts, li, nlayers, tag):
         f.append("tied-targets")
     if len(items) >= 100:
         f.append("layer>=100")
+    if "stale-nodes" in tag:
+        f.append("stale-nodes")
     if tag.startswith("near-touching"):
         f.append("near-touching")
     if tag.startswith("packing-"):
@@ -58,6 +60,9 @@ def judge_layers(ctx, rec, case, tag, which):
     nl = len(rec["layers"])
     if rec["exc"] is not None:
         ctx.judge("compute", VIOLATED, case, finding={"reason": "Force.compute raised " + rec["exc"]}, key="compute-raised " + rec["exc"])
+        return
+    if rec.get("target_problems"):
+        ctx.judge("compute", VIOLATED, case, finding={"reason": "layer item without its stub", "detail": rec["target_problems"][:3]}, key="item-without-stub-below")
         return
     if rec["moved_after_solve"]:
         ctx.judge("compute", VIOLATED, case, finding={"reason": "a layer's positions changed after its own solve", "moved": rec["moved_after_solve"]}, key="layer-moved-after-solve")
@@ -119,12 +124,22 @@ def _dig(items, mn, mx, sp):
     return hashlib.sha1(repr(([(i["t"], i["w"], i["stub"]) for i in items], mn, mx, sp)).encode()).hexdigest()[:16]
 
 
-def run_case(ctx, mon, labels, opts, tag, which):
+def run_case(ctx, mon, labels, opts, tag, which, stale=None):
     from labella.force import Force
 
-    case = {"labels": labels, "options": opts, "tag": tag}
+    case = {"labels": labels, "options": opts, "tag": tag, "stale": stale}
     f = Force(dict(opts))
-    f.nodes(WL.make_nodes(labels))
+    nodes = WL.make_nodes(labels)
+    if stale:
+        # the same label objects were laid out before by another engine/configuration (stale stubs, layers, positions)
+        g = Force(dict(stale))
+        g.nodes(nodes)
+        try:
+            g.compute()
+        except Exception:
+            pass
+        mon.drain()
+    f.nodes(nodes)
     try:
         f.compute()
     except BudgetExceeded:
@@ -148,7 +163,11 @@ def worker(ctx, shard, which):
             if ctx.should_stop():
                 break
             labels, opts, tag = WL.gen_case(rng, heavy_ok=(ctx.tier == "thorough"))
-            run_case(ctx, mon, labels, opts, tag, which)
+            stale = None
+            if rng.random() < 0.2:
+                stale = rng.choice([{"maxPos": 200, "density": 0.3}, {"maxPos": 400, "algorithm": "simple", "density": 0.5}, {"maxPos": 120, "stubWidth": 4}, {"algorithm": "none"}])
+                tag += "+stale-nodes"
+            run_case(ctx, mon, labels, opts, tag, which, stale=stale)
     elif shard["kind"] == "clusters":
         # one mutually conflicting cluster of n labels, n = 1..200 (thorough: every n; quick: a ladder)
         ns = range(1, 201) if ctx.tier == "thorough" else [1, 2, 3, 5, 10, 25, 50, 100, 150, 200]
@@ -162,7 +181,7 @@ def worker(ctx, shard, which):
             run_case(ctx, mon, labels, opts, "clusters/%d" % n, which)
     elif shard["kind"] == "replay-case":
         c = shard["case"]
-        run_case(ctx, mon, c["labels"], c["options"], c.get("tag", "replay"), which)
+        run_case(ctx, mon, c["labels"], c["options"], c.get("tag", "replay"), which, stale=c.get("stale"))
     for k, v in mon.events.items():
         ctx.event(k, v)
     mon.uninstall()
